@@ -349,6 +349,49 @@ Section SchnorrProofs.
     apply bip_accept_iff in H. destruct H as (_ & _ & _ & _ & H). cbv zeta in H.
     destruct H as (_ & Hy' & _). congruence.
   Qed.
+  (* ---- wire forms: only the canonical representative of every component is accepted ------------------ *)
+  Theorem bip_wire_accept_iff : forall p lift_even px rx s m,
+    bip_verify_wire n yodd M chal p lift_even px rx s m = true <->
+    (0 <= px < p /\ 0 <= rx < p /\ 0 <= s < n /\
+     exists P R, lift_even px = Some P /\ lift_even rx = Some R /\
+                 bip_verify (mk_ssig (mk_gelt true R) s) (mk_gelt true P) m = true).
+  Proof.
+    intros p lift_even px rx s m. unfold Schnorr.bip_verify_wire, Schnorr.canonical.
+    destruct ((0 <=? px) && (px <? p)) eqn:H1; cbn [negb]; [|split; [discriminate|intros (H & _); lia]].
+    destruct ((0 <=? rx) && (rx <? p)) eqn:H2; cbn [negb]; [|split; [discriminate|intros (_ & H & _); lia]].
+    destruct ((0 <=? s) && (s <? n)) eqn:H3; cbn [negb]; [|split; [discriminate|intros (_ & _ & H & _); lia]].
+    destruct (lift_even px) as [P|]; [|split; [discriminate|intros (_ & _ & _ & P & R & H & _); discriminate]].
+    destruct (lift_even rx) as [R|]; [|split; [discriminate|intros (_ & _ & _ & P' & R & _ & H & _); discriminate]].
+    split.
+    - intro H. repeat split; try lia. exists P, R. repeat split; exact H.
+    - intros (_ & _ & _ & P' & R' & HP & HR & H). inversion HP. inversion HR. subst. exact H.
+  Qed.
+
+  Theorem mina_wire_accept_iff : forall p lift_even rx s pk m,
+    mina_verify_wire n M chal p lift_even rx s pk m = true <->
+    (0 <= rx < p /\ 0 <= s < n /\
+     exists R, lift_even rx = Some R /\ mina_verify n M chal (mk_ssig (mk_gelt true R) s) pk m = true).
+  Proof.
+    intros p lift_even rx s pk m. unfold Schnorr.mina_verify_wire, Schnorr.canonical.
+    destruct ((0 <=? rx) && (rx <? p)) eqn:H2; cbn [negb]; [|split; [discriminate|intros (H & _); lia]].
+    destruct ((0 <=? s) && (s <? n)) eqn:H3; cbn [negb]; [|split; [discriminate|intros (_ & H & _); lia]].
+    destruct (lift_even rx) as [R|]; [|split; [discriminate|intros (_ & _ & R & H & _); discriminate]].
+    split.
+    - intro H. repeat split; try lia. exists R. split; [reflexivity|exact H].
+    - intros (_ & _ & R' & HR & H). inversion HR. subst. exact H.
+  Qed.
+
+  (* c + k·modulus (k >= 1) is never accepted in place of c *)
+  Theorem wire_shifted_component_rejected : forall p lift_even px rx s m k,
+    0 <= s -> 0 < n -> 1 <= k ->
+    bip_verify_wire n yodd M chal p lift_even px rx (s + k * n) m = false /\
+    forall pk, mina_verify_wire n M chal p lift_even rx (s + k * n) pk m = false.
+  Proof.
+    intros p lift_even px rx s m k Hs Hn Hk.
+    assert (Hc : Schnorr.canonical n (s + k * n) = false) by (unfold Schnorr.canonical; nia).
+    split; [|intro pk]; unfold Schnorr.bip_verify_wire, Schnorr.mina_verify_wire; rewrite Hc; cbn [negb];
+      repeat match goal with |- (if ?c then _ else _) = _ => destruct c end; reflexivity.
+  Qed.
 End SchnorrProofs.
 
 (* Mina: the generic verifier with x-only R and full P in the challenge, even-y nonces *)
